@@ -119,6 +119,8 @@ def pat_str(p):
     if p is None:
         return "_"
     k = p.get("k")
+    if p.get("cdef") and k != "Bind":
+        return short(p["cdef"], 2)
     if k == "Wild":
         return "_"
     if k == "Bind":
